@@ -12,6 +12,7 @@ Search    : the property's own identities evaluated on the implementation's outp
 """
 from __future__ import annotations
 
+import copy
 import json
 import math
 import random
@@ -26,6 +27,20 @@ import tr_options_c04c05 as tr_options  # noqa: E402
 
 TOL = 1e-10
 PSUM_TOL = 1e-12
+# dtype regimes: f64 = default float64, float64 inputs; f32default = default float32, float64 inputs (results must be
+# float64 and as accurate); f32in = default float64, float32 inputs (results must be float32); int = integer-typed
+# parameter tensors (results in the default floating dtype)
+REGIME_TOL = {"f64": (1e-10, 1e-12), "f32default": (1e-10, 1e-12), "f32in": (1e-4, 1e-6), "int": (1e-10, 1e-12)}
+
+
+def regime_of(c):
+    return c.get("regime", "f64")
+
+
+def f32(x):
+    import struct
+
+    return struct.unpack("<f", struct.pack("<f", x))[0]
 OBSERVED = []  # option/attribute disagreements of the object built last
 CLASS = {"const": "ConstantSiteModel", "inv": "InvariantSiteModel", "weibull": "WeibullSiteModel"}
 
@@ -90,6 +105,31 @@ def gen_case(rng, kind=None):
     if rng.random() < 0.6:
         add_updates(rng, c, rng.randint(1, 3))
     c["route"] = gen_route(rng)
+    apply_regime(rng, c, rng.choice(["f64"] * 6 + ["f32default"] * 2 + ["f32in"] * 2))
+    if rng.random() < 0.25:
+        c["deepcopy"] = True
+    if rng.random() < 0.25:
+        c["move"] = rng.choice(["cpu", "to"])
+    return c
+
+
+def apply_regime(rng, c, regime):
+    """float32 inputs: values are rounded to float32 (so the model sees the same numbers) and kept in the range
+    where float32 neither overflows nor underflows (shape in [0.1, 100], p <= 0.99, mu in [1e-3, 1e3])"""
+    c["regime"] = regime
+    if regime == "f32in":
+        def fix(name, v):
+            if name == "shape":
+                v = min(max(v, 0.1), 100.0)
+            if name == "inv":
+                v = min(v, 0.99)
+            return f32(v)
+
+        for name in ("shape", "inv", "mu"):
+            if c.get(name) is not None:
+                c[name] = [fix(name, v) for v in c[name]]
+        for u in c.get("updates", []):
+            u["set"] = {n: [fix(n, v) for v in vs] for n, vs in u["set"].items()}
     return c
 
 
@@ -172,11 +212,15 @@ def run_impl(c):
     from torchtree.evolution.site_model import ConstantSiteModel, InvariantSiteModel, WeibullSiteModel
 
     pars = {}
+    supplied = {}
+    regime = regime_of(c)
+    in_dtype = {"f64": torch.float64, "f32default": torch.float64, "f32in": torch.float32, "int": torch.int64}[regime]
 
     def tens(name, v):
-        t = torch.tensor(v, dtype=torch.float64)
+        t = torch.tensor(v, dtype=torch.float64).to(in_dtype)
         if c["batch"].get(name):
             t = t.unsqueeze(-1)
+        supplied[name] = t.clone()
         return t
 
     def par(name):
@@ -219,7 +263,10 @@ def run_impl(c):
         JSON_KEY = {"shape": "shape", "inv": "invariant", "mu": "mu"}
 
         def pjson(name):
-            return {"id": "sm." + name, "type": "Parameter", "tensor": tens(name, c[name]).tolist()}
+            d = {"id": "sm." + name, "type": "Parameter", "tensor": tens(name, c[name]).tolist()}
+            if regime != "f64":
+                d["dtype"] = str(in_dtype)  # the JSON names the dtype when it is not the default one
+            return d
 
         tname = CLASS[c["kind"]]
         if kind == "cli":
@@ -238,6 +285,8 @@ def run_impl(c):
                     sub = data[JSON_KEY[name]]
                     sub["tensor"] = tens(name, c[name]).tolist()
                     sub["id"] = "sm." + name
+                    if regime != "f64":
+                        sub["dtype"] = str(in_dtype)
         else:
             data = {"id": "sm", "type": ("torchtree.evolution.site_model." + tname) if route.get("fulltype") else tname}
             if c["kind"] == "weibull":
@@ -291,25 +340,73 @@ def run_impl(c):
             r = m.rates()
         if p is None:
             p = m.probabilities()
-        return ("ok", r.detach().reshape(-1, r.shape[-1]).tolist(), p.detach().reshape(-1, p.shape[-1]).tolist())
+        if not isinstance(r, torch.Tensor) or not isinstance(p, torch.Tensor) or r.dim() < 1 or p.dim() < 1:
+            return ("raise", "TypeError", f"rates()/probabilities() returned {type(r).__name__}/{type(p).__name__}")
+        meta = {"rates_dtype": str(r.dtype), "probs_dtype": str(p.dtype)}
+        # the same call twice gives the same answer
+        r2, p2 = m.rates(), m.probabilities()
+        if not (torch.equal(torch.nan_to_num(r), torch.nan_to_num(r2)) and torch.equal(torch.nan_to_num(p), torch.nan_to_num(p2))):
+            meta["not_repeatable"] = True
+        # nothing handed in was modified
+        mutated = [n for n, par_ in pars.items() if n in supplied and
+                   (par_.tensor.shape != supplied[n].shape or not torch.equal(par_.tensor, supplied[n]))]
+        if mutated:
+            meta["mutated_inputs"] = mutated
+        return ("ok", r.detach().double().reshape(-1, r.shape[-1]).tolist(),
+                p.detach().double().reshape(-1, p.shape[-1]).tolist(), meta)
+
+    def move(m):
+        if c.get("move") == "cpu":
+            m.cpu()
+        elif c.get("move") == "to":
+            m.to(torch.device("cpu"))
 
     outs = []
+    old_default = torch.get_default_dtype()
+    old_grad = torch.is_grad_enabled()
+    torch.set_default_dtype(torch.float32 if regime == "f32default" else torch.float64)
+    torch.set_grad_enabled(c.get("grad") != "no_grad")
     try:
-        m = build()
-        OBSERVED[:] = observe(m)
-        outs.append(read(m, "rp"))
-    except Exception as e:  # the implementation raised: an outcome to be judged, not a harness crash
-        OBSERVED[:] = []
-        return [("raise", type(e).__name__, str(e)[:200])]
-    for u in c.get("updates", []):
         try:
-            for name, v in u["set"].items():
-                pars[name].tensor = tens(name, v)
-            outs.append(read(m, u.get("order", "rp")))
-        except Exception as e:
-            outs.append(("raise", type(e).__name__, str(e)[:200]))
-            break
-    return outs
+            m = build()
+            OBSERVED[:] = observe(m)
+            if c.get("grad") == "requires_grad":
+                for par_ in pars.values():
+                    if par_.tensor.is_floating_point():
+                        par_.requires_grad = True
+            if c.get("move"):
+                move(m)  # a device move before the first evaluation
+            outs.append(read(m, "rp"))
+        except Exception as e:  # the implementation raised: an outcome to be judged, not a harness crash
+            OBSERVED[:] = []
+            return [("raise", type(e).__name__, str(e)[:200])]
+        original = None
+        if c.get("deepcopy") and c.get("updates"):
+            # the history is applied to a deep copy; the original must keep answering as before
+            try:
+                original = (m, outs[0])
+                m, pars = copy.deepcopy((m, pars))
+            except Exception as e:
+                outs.append(("raise", type(e).__name__, "deepcopy: " + str(e)[:180]))
+                return outs
+        for i, u in enumerate(c.get("updates", [])):
+            try:
+                for name, v in u["set"].items():
+                    pars[name].tensor = tens(name, v)
+                if c.get("move") and i % 2 == 0:
+                    move(m)
+                outs.append(read(m, u.get("order", "rp")))
+            except Exception as e:
+                outs.append(("raise", type(e).__name__, str(e)[:200]))
+                break
+        if original is not None and outs[-1][0] == "ok":
+            again = read(original[0], "rp")
+            if again[0] != "ok" or again[1] != original[1][1] or again[2] != original[1][2]:
+                outs[-1][3]["original_changed_by_updates_on_its_deepcopy"] = True
+        return outs
+    finally:
+        torch.set_default_dtype(old_default)
+        torch.set_grad_enabled(old_grad)
 
 
 def slice_params(c, s):
@@ -322,10 +419,35 @@ def slice_params(c, s):
     return {"shape": g("shape"), "inv": g("inv"), "mu": g("mu")}
 
 
-def oracle(c, rates, probs):
+def weibull_spec(K, shape, inv, mu):
+    """the mechanism the property names, written independently: rates proportional to the Weibull quantile function at
+    the median quantiles (2i+1)/(2K), scaled so that the probability-weighted mean is 1 (or mu)"""
+    raw = [(-math.log(1.0 - (2 * i + 1) / (2.0 * K))) ** (1.0 / shape) for i in range(K)]
+    w = (1.0 - (inv or 0.0)) / K
+    tot = math.fsum(x * w for x in raw)
+    r = [x / tot * (1.0 if mu is None else mu) for x in raw]
+    return ([0.0] + r) if inv is not None else r
+
+
+def oracle(c, rates, probs, meta=None):
     """the property's own identities on the implementation's output. -> list of (name, detail)"""
     bad = []
     S = c["S"]
+    TOL, PSUM_TOL = REGIME_TOL[regime_of(c)]
+    if meta:
+        want = "torch.float32" if regime_of(c) == "f32in" else "torch.float64"
+        if regime_of(c) == "int":
+            want = meta.get("rates_dtype") if c["kind"] == "const" else "torch.float64"
+            meta = dict(meta, probs_dtype=want if c["kind"] == "const" else meta.get("probs_dtype"))
+        if c["kind"] == "const" and c.get("mu") is None:
+            # no input at all: the single rate and its probability are created in the default dtype
+            want = "torch.float32" if regime_of(c) == "f32default" else "torch.float64"
+        if meta.get("rates_dtype") != want or meta.get("probs_dtype") != want:
+            bad.append(("result_dtype", {"regime": regime_of(c), "rates": meta.get("rates_dtype"),
+                                         "probs": meta.get("probs_dtype"), "expected": want}))
+        for key in ("not_repeatable", "mutated_inputs", "original_changed_by_updates_on_its_deepcopy"):
+            if meta.get(key):
+                bad.append((key, {"value": meta[key]}))
     for s in range(S):
         q = slice_params(c, s)
         r = rates[s] if len(rates) > 1 else rates[0]
@@ -349,6 +471,11 @@ def oracle(c, rates, probs):
         mean = math.fsum(a * b for a, b in zip(p, r))
         if abs(mean - target) > TOL * max(abs(target), 1e-300):
             bad.append(("mean_rate", {"slice": s, "mean": mean, "target": target}))
+        if c["kind"] == "weibull":
+            spec = weibull_spec(c["K"], q["shape"], q["inv"], q["mu"])
+            dev = max((abs(a - b) / max(abs(b), 1e-300) for a, b in zip(r, spec) if b != 0.0), default=0.0)
+            if len(spec) != len(r) or dev > 10 * TOL:
+                bad.append(("rates_are_median_quantiles", {"slice": s, "max_rel_dev": dev, "rates": r, "spec": spec}))
     return bad
 
 
@@ -373,10 +500,10 @@ def parse_model(rep):
     return n, vals[:n], vals[n : 2 * n], vals[2 * n], vals[2 * n + 1]
 
 
-def close(a, b, exact):
+def close(a, b, exact, tol=TOL):
     if exact:
         return a == b
-    return a == b or abs(a - b) <= TOL * max(abs(a), abs(b))
+    return a == b or abs(a - b) <= tol * max(abs(a), abs(b))
 
 
 def compare(ck, drv, c, rates, probs, step=0, whole=None):
@@ -390,14 +517,16 @@ def compare(ck, drv, c, rates, probs, step=0, whole=None):
         n, mp, mr, mmean, mpsum = parse_model(rep)
         r = rates[s] if len(rates) > 1 else rates[0]
         p = probs[s] if len(probs) > 1 else probs[0]
-        exact_rates = c["kind"] != "weibull"
+        f32in = regime_of(c) == "f32in"
+        tol = REGIME_TOL[regime_of(c)][0]
+        exact_rates = c["kind"] != "weibull" and not f32in
         if len(r) != n or len(p) != n:
             ck.mismatch("category count differs", {"case": c, "slice": s, "impl": len(r), "model": n})
             return False
-        if not all(close(a, b, True) for a, b in zip(p, mp)):
+        if not all(close(a, b, not f32in, tol) for a, b in zip(p, mp)):
             ck.mismatch("probabilities differ", {**tag, "case": c, "slice": s, "impl": p, "model": mp})
             return False
-        if not all(close(a, b, exact_rates) for a, b in zip(r, mr)):
+        if not all(close(a, b, exact_rates, tol) for a, b in zip(r, mr)):
             ck.mismatch("rates differ", {**tag, "case": c, "slice": s, "impl": r, "model": mr})
             return False
     return True
@@ -424,7 +553,7 @@ def failing_steps(c, name):
         if out[0] != "ok":
             if name == "raises":
                 bad.append(k)
-        elif any(n == name for n, _ in oracle(state_at(c, k), out[1], out[2])):
+        elif any(n == name for n, _ in oracle(state_at(c, k), out[1], out[2], out[3] if len(out) > 3 else None)):
             bad.append(k)
     return bad
 
@@ -475,6 +604,26 @@ def shrink(c, name):
     return best
 
 
+def scan_constructors(rels):
+    """tensor constructors in the anchored files that name no dtype (they follow the default dtype, not the inputs)"""
+    import ast
+
+    out = []
+    names = {"tensor", "zeros", "ones", "full", "eye", "arange", "empty", "linspace", "rand", "randn"}
+    for rel in rels:
+        try:
+            tree = ast.parse((REPO / rel).read_text())
+        except Exception as e:
+            out.append(f"{rel}: unreadable ({e})")
+            continue
+        for node in ast.walk(tree):
+            if isinstance(node, ast.Call) and isinstance(node.func, ast.Attribute) and node.func.attr in names \
+                    and isinstance(node.func.value, ast.Name) and node.func.value.id == "torch" \
+                    and not any(kw.arg == "dtype" for kw in node.keywords):
+                out.append(f"{rel}:{node.lineno} torch.{node.func.attr}")
+    return sorted(out)
+
+
 def load_corpus():
     d = VERIF / "corpus" / "C05"
     out = []
@@ -517,6 +666,7 @@ def run(ck: Check):
     ok, broken = ck.lean_side({"TTGen/C05Options.lean": opt_src},
                               ["TTModel.C05_SiteModel", "TTGen.C05Options", "TTProofs.Props.C05", "drv_c05"],
                               "TTProofs/Props/C05.lean")
+    ck.extra["tensor_constructors_without_dtype"] = scan_constructors(["torchtree/evolution/site_model.py"])
     drv = None
     try:
         drv = ck.driver("drv_c05")
@@ -531,7 +681,9 @@ def run(ck: Check):
             for has_mu in (False, True):
                 for batched in (False, True):
                     c = gen_case(ck.rng, "weibull")
-                    c.pop("updates", None)
+                    for key in ("updates", "deepcopy", "move"):
+                        c.pop(key, None)
+                    c["regime"] = "f64"
                     S = 3 if batched else 1
                     c.update(K=K, S=S, shape=[10 ** ck.rng.uniform(-2, 2) for _ in range(S)],
                              inv=[ck.rng.random() for _ in range(S)] if has_inv else None,
@@ -588,13 +740,51 @@ def run(ck: Check):
                         if order and any(c.get(n) is not None for n in ("shape", "inv", "mu")):
                             add_updates(ck.rng, c, 2)
                         cases.append((c, "routes"))
+    # integer-typed parameter tensors (accepted by the API): the values are those of the same floats
+    for K in (1, 3, 4):
+        for shape in (1, 2):
+            for inv in (None, [0]):
+                for mu in (None, [3]):
+                    cases.append(({"kind": "weibull", "S": 1, "K": K, "shape": [float(shape)],
+                                   "inv": None if inv is None else [0.0], "mu": None if mu is None else [3.0],
+                                   "batch": {"shape": False, "inv": False, "mu": False}, "regime": "int",
+                                   "route": {"kind": "ctor"}}, "int"))
+    cases.append(({"kind": "const", "S": 1, "mu": [3.0], "batch": {"mu": False}, "regime": "int",
+                   "route": {"kind": "ctor"}}, "int"))
+    cases.append(({"kind": "inv", "S": 1, "inv": [0.0], "mu": [2.0], "batch": {"inv": False, "mu": False},
+                   "regime": "int", "route": {"kind": "kw", "order": 1}}, "int"))
+    # sample count equal to the number of categories (K, K+1), ONE row holding a special value (p = 0, mu = 1,
+    # shape = 1) while the others do not: every row against the model
+    for K in (2, 3, 5):
+        for has_inv in (False, True):
+            S = K + (1 if has_inv else 0)
+            for special in ("shape", "inv", "mu"):
+                if special == "inv" and not has_inv:
+                    continue
+                g = _gens(ck.rng)
+                c = {"kind": "weibull", "K": K, "S": S, "shape": [10 ** ck.rng.uniform(-1.5, 1.5) for _ in range(S)],
+                     "inv": [ck.rng.uniform(0.05, 0.9) for _ in range(S)] if has_inv else None,
+                     "mu": [10 ** ck.rng.uniform(-2, 2) for _ in range(S)],
+                     "batch": {"shape": True, "inv": has_inv, "mu": True}, "regime": "f64", "route": {"kind": "ctor"}}
+                row = ck.rng.randrange(S)
+                c[special][row] = {"shape": 1.0, "inv": 0.0, "mu": 1.0}[special]
+                cases.append((c, "special-row"))
     while len(cases) < n_cases:
         cases.append((gen_case(ck.rng), "random"))
 
     failures = []  # (case, oracle name, detail)
     unexpected = 0
 
+    gradcount = [0]
+
     def explore(c, origin, with_model=True):
+        # anything unexpected read from the implementation is a recorded mismatch, never a harness crash
+        try:
+            _explore(c, origin, with_model)
+        except Exception as e:
+            ck.mismatch("harness could not interpret the implementation's output", {"case": c, "error": repr(e)[:300]})
+
+    def _explore(c, origin, with_model=True):
         nonlocal unexpected
         outs = run_impl(c)
         unsupported = expected_unsupported(c)
@@ -603,6 +793,15 @@ def run(ck: Check):
         if OBSERVED and outs[0][0] == "ok":
             ck.mismatch("object built through this route does not hold the options it was given",
                         {"case": c, "observed": list(OBSERVED)})
+        if outs[0][0] == "ok" and gradcount[0] % 3 == 0:
+            # evaluation under no_grad / with leaves requiring grad must agree bitwise with the plain one
+            for mode in ("no_grad", "requires_grad"):
+                # (deepcopy of an object holding graph tensors is a torch limitation: not combined)
+                alt = run_impl(dict(c, grad=mode, deepcopy=False))
+                if [o[:3] for o in alt] != [o[:3] for o in outs]:
+                    ck.mismatch("evaluation differs under grad mode " + mode, {"case": c})
+                    failures.append((dict(c, grad=mode), "grad_mode_changes_values", {"mode": mode}))
+        gradcount[0] += 1
         if rk != "ctor" and outs[0][0] == "ok":
             ref = run_impl({x: y for x, y in c.items() if x not in ("route", "updates")})[0]
             if ref[0] != "ok" or ref[1] != outs[0][1] or ref[2] != outs[0][2]:
@@ -620,7 +819,7 @@ def run(ck: Check):
                     ck.mismatch("implementation raised on a supported parameter set", {"case": c, "step": k, "error": out[1:]})
                     failures.append((c, "raises", {"step": k, "error": out[1:]}))
                 return
-            for name, detail in oracle(ck_, out[1], out[2]):
+            for name, detail in oracle(ck_, out[1], out[2], out[3] if len(out) > 3 else None):
                 failures.append((c, name, dict(detail, step=k)))
             if with_model and drv is not None:
                 compare(ck, drv, ck_, out[1], out[2], step=k, whole=c)
@@ -649,7 +848,7 @@ def run(ck: Check):
             outs = run_impl(small)
             k = len(outs) - 1
             out = outs[k]
-            det = oracle(state_at(small, k), out[1], out[2]) if out[0] == "ok" else [("raises", out[1:])]
+            det = oracle(state_at(small, k), out[1], out[2], out[3] if len(out) > 3 else None) if out[0] == "ok" else [("raises", out[1:])]
             det = [d for d in det if d[0] == name] or det
             after = f" after {len(small.get('updates', []))} parameter assignment(s) on a live object" if small.get("updates") else ""
             ck.violation(sig, f"{CLASS[c['kind']]} violates {name}{after}: {json.dumps(det[:1], default=str)[:300]}",
@@ -682,7 +881,7 @@ def replay(path: str) -> int:
             return 1
         print("rates:", out[1])
         print("probabilities:", out[2])
-        bad = oracle(state_at(c, k), out[1], out[2])
+        bad = oracle(state_at(c, k), out[1], out[2], out[3] if len(out) > 3 else None)
         for name, detail in bad:
             print("VIOLATES", name, detail)
             rc = 1
